@@ -106,6 +106,21 @@ impl<'tcx> Ex<'tcx> {
                 let name = tcx.opt_item_name(did).map(|s| s.as_str().to_string()).unwrap_or_default();
                 if tcx.impl_opt_trait_ref(imp).is_some() {
                     let t = tcx.impl_trait_ref(imp).instantiate_identity().skip_norm_wip();
+                    // trait arguments that are concrete types distinguish sibling impls (TryFrom<Vec<f64>> vs
+                    // TryFrom<&[f64]>); bare type parameters (Component<P>) are left out so keys stay stable
+                    let mut targs: Vec<String> = vec![];
+                    let mut concrete = false;
+                    for a in t.args.iter().skip(1) {
+                        if let GenericArgKind::Type(ty) = a.kind() {
+                            if !matches!(ty.kind(), ty::Param(_) | ty::Alias(..)) && ty != self_ty {
+                                concrete = true;
+                            }
+                            targs.push(self.ty(ty));
+                        }
+                    }
+                    if concrete {
+                        return format!("<{} as {}<{}>>::{}", st, self.cpath(t.def_id), targs.join(", "), name);
+                    }
                     return format!("<{} as {}>::{}", st, self.cpath(t.def_id), name);
                 }
                 return format!("{}::{}", st, name);
